@@ -255,18 +255,12 @@ func inlineToks(tt []CTok) ([]idTok, bool) {
 			toks[k] = s.tok
 		}
 		p := ctxSpecPlace(toks, t)
-		e := directive.Enumeration(t.Kind)
 		if p == -1 {
 			roots = append(roots, n)
 			stack = []*node{n}
 			continue
 		}
 		parent := stack[p]
-		if e.IsHTTPRequestMethod() && t.HasPath && directive.Enumeration(parent.tok.Kind) == directive.URL {
-			roots = append(roots, n)
-			stack = []*node{n}
-			continue
-		}
 		parent.kids = append(parent.kids, n)
 		stack = append([]*node{n}, stack[p:]...)
 	}
